@@ -340,6 +340,55 @@ func c12CheckDecode(c c12DecCase) engine.Result {
 	return res
 }
 
+// c12CheckLookalike: the body of a CableLabs EBP under the Comcast tag. The four bytes that are the
+// CableLabs format identifier ('EBP0') are then, by the Comcast layout, the flag byte 0x45 (segment,
+// discontinuity, extension), the extension byte 0x42 and two reserved bytes, and everything after
+// them is reserved as well: a well-formed Comcast EBP that must be decoded as one.
+func c12CheckLookalike(c c12DecCase) engine.Result {
+	var res engine.Result
+	cl := ref.EBP{Tag: ref.EBPTagCableLabs, Ext: c.Ext, SAP: c.SAP, Grouping: c.Grouping, Seconds: 0xD6EE7BD8, Fraction: 0x8DC714FC, Partitions: 3}
+	cl.SetFlagsByte(c.Flags)
+	rec := &c12Rec{res: &res}
+	for _, rl := range []int{0, 1, 2, 40} {
+		cl.Reserved = c12Reserved(rl)
+		in := ref.BuildEBP(&cl)
+		in[0] = ref.EBPTagComcast
+		for cut := 5; cut <= 7 && cut <= len(in); cut++ {
+			// also the shortest look-alikes: 'EBP', 'EBP0' and 'EBP0' + one byte
+			var x []byte
+			if cut == 7 {
+				x = append([]byte(nil), in...)
+			} else {
+				x = append([]byte(nil), in[:cut+1]...)
+				x[1] = byte(len(x) - 2)
+			}
+			m, ok := ref.ParseEBP(x)
+			if !ok || m.Tag != ref.EBPTagComcast || !m.Segment || !m.Conceal || !m.ExtFlag || m.Ext != 0x42 || m.TimeFlag || m.GroupFlag {
+				res.Failf("harness|lookalike-not-a-comcast-ebp", "% x", c12Head(x, 24))
+				return res
+			}
+			res.Evals++
+			res.Nontrivial++
+			var got ebp.EncoderBoundaryPoint
+			var err error
+			if engine.Guard(&res, "decode", func() { got, err = ebp.ReadEncoderBoundaryPoint(x) }) {
+				return res
+			}
+			if err != nil || got == nil || reflect.ValueOf(got).IsNil() {
+				rec.failf("decode|comcast,body-starts-like-the-other-flavour|error-on-well-formed", "input (%d bytes) % x: err=%v", len(x), c12Head(x, 48), err)
+				continue
+			}
+			if engine.Guard(&res, "decode-getters-reencode", func() {
+				c12CheckDecoded(rec, "decode", "comcast,body-starts-like-the-other-flavour", "", &m, got, x)
+			}) {
+				return res
+			}
+		}
+	}
+	res.Outcome(c.Flags&0x59, len(c.Grouping))
+	return res
+}
+
 func c12Head2(n int) int {
 	if n > 24 {
 		return 24
@@ -667,54 +716,83 @@ func c12CheckSet(c c12SetCase) engine.Result {
 			}
 			class := fl
 			var out []byte
-			if engine.Guard(&res, "Data", func() { out = x.Data() }) {
-				continue
-			}
-			desc := fmt.Sprintf("ops %v values #%d (values first: %v)", c.Ops, vi, valuesFirst)
-			if len(out) < 3 || int(out[1]) != len(out)-2 {
-				rec.failf("Data|"+class+"|length-byte", "%s: Data() = % x: length byte does not equal the %d bytes that follow", desc, out, len(out)-2)
-				continue
-			}
-			// (a) the bytes are the reference encoding of the values that were set (time: within 1 ns)
-			p, ok := ref.ParseEBP(out)
-			if !ok {
-				rec.failf("Data|"+class+"|not-a-well-formed-EBP", "%s: Data() = % x", desc, out)
-				continue
-			}
-			want := m
-			want.Seconds, want.Fraction = p.Seconds, p.Fraction
-			if !want.GroupFlag {
-				want.Grouping = nil
-			}
-			if !bytes.Equal(ref.BuildEBP(&want), out) {
-				rec.failf("Data|"+class+"|bytes-differ-from-reference-encoding", "%s: Data() = % x, reference % x", desc, out, ref.BuildEBP(&want))
-			}
-			setNs := v.Unix*1000000000 + v.Nanos // fits: |unix| < 2^33
-			if want.TimeFlag {
-				ws, lo, hi := ref.EBPTimeBounds(p.Seconds, p.Fraction)
-				if d1, d2 := ws*1000000000+lo-setNs, ws*1000000000+hi-setNs; (d1 < -1 || d1 > 1) && (d2 < -1 || d2 > 1) {
-					rec.failf("Data|"+class+"|encoded-time-not-within-1ns", "%s: set unix %d.%09d, encoded seconds %#x fraction %#x = unix %d s + %d..%d ns", desc, v.Unix, v.Nanos, p.Seconds, p.Fraction, ws, lo, hi)
+			judge := func(desc string) {
+				if engine.Guard(&res, "Data", func() { out = x.Data() }) {
+					return
 				}
-			}
-			// (b) the gots decoder returns the values that were set, and re-encodes to the same bytes
-			var got ebp.EncoderBoundaryPoint
-			var err error
-			if engine.Guard(&res, "decode(Data)", func() { got, err = ebp.ReadEncoderBoundaryPoint(append([]byte(nil), out...)) }) {
-				continue
-			}
-			if err != nil || got == nil || reflect.ValueOf(got).IsNil() {
-				rec.failf("decode(Data)|"+class+"|error", "%s: Data() = % x does not decode: %v", desc, out, err)
-				continue
-			}
-			engine.Guard(&res, "decode(Data)-getters", func() {
-				c12CheckDecoded(rec, "decode(Data)", class, "", &want, got, out)
+				if len(out) < 3 || int(out[1]) != len(out)-2 {
+					rec.failf("Data|"+class+"|length-byte", "%s: Data() = % x: length byte does not equal the %d bytes that follow", desc, out, len(out)-2)
+					return
+				}
+				// (a) the bytes are the reference encoding of the values that were set (time: within 1 ns)
+				p, ok := ref.ParseEBP(out)
+				if !ok {
+					rec.failf("Data|"+class+"|not-a-well-formed-EBP", "%s: Data() = % x", desc, out)
+					return
+				}
+				want := m
+				want.Seconds, want.Fraction = p.Seconds, p.Fraction
+				if !want.GroupFlag {
+					want.Grouping = nil
+				}
+				if !bytes.Equal(ref.BuildEBP(&want), out) {
+					rec.failf("Data|"+class+"|bytes-differ-from-reference-encoding", "%s: Data() = % x, reference % x", desc, out, ref.BuildEBP(&want))
+				}
+				setNs := v.Unix*1000000000 + v.Nanos // fits: |unix| < 2^33
 				if want.TimeFlag {
-					t := got.EBPTime()
-					if d := t.Unix()*1000000000 + int64(t.Nanosecond()) - setNs; d < -1 || d > 1 {
-						rec.failf("decode(Data)|"+class+"|time-not-within-1ns", "%s: set unix %d.%09d, decoded %s", desc, v.Unix, v.Nanos, t.Format(time.RFC3339Nano))
+					ws, lo, hi := ref.EBPTimeBounds(p.Seconds, p.Fraction)
+					if d1, d2 := ws*1000000000+lo-setNs, ws*1000000000+hi-setNs; (d1 < -1 || d1 > 1) && (d2 < -1 || d2 > 1) {
+						rec.failf("Data|"+class+"|encoded-time-not-within-1ns", "%s: set unix %d.%09d, encoded seconds %#x fraction %#x = unix %d s + %d..%d ns", desc, v.Unix, v.Nanos, p.Seconds, p.Fraction, ws, lo, hi)
 					}
 				}
-			})
+				// (b) the gots decoder returns the values that were set, and re-encodes to the same bytes
+				var got ebp.EncoderBoundaryPoint
+				var err error
+				if engine.Guard(&res, "decode(Data)", func() { got, err = ebp.ReadEncoderBoundaryPoint(append([]byte(nil), out...)) }) {
+					return
+				}
+				if err != nil || got == nil || reflect.ValueOf(got).IsNil() {
+					rec.failf("decode(Data)|"+class+"|error", "%s: Data() = % x does not decode: %v", desc, out, err)
+					return
+				}
+				engine.Guard(&res, "decode(Data)-getters", func() {
+					c12CheckDecoded(rec, "decode(Data)", class, "", &want, got, out)
+					if want.TimeFlag {
+						t := got.EBPTime()
+						if d := t.Unix()*1000000000 + int64(t.Nanosecond()) - setNs; d < -1 || d > 1 {
+							rec.failf("decode(Data)|"+class+"|time-not-within-1ns", "%s: set unix %d.%09d, decoded %s", desc, v.Unix, v.Nanos, t.Format(time.RFC3339Nano))
+						}
+					}
+				})
+			}
+			judge(fmt.Sprintf("ops %v values #%d (values first: %v)", c.Ops, vi, valuesFirst))
+			// second round on the same object, after it has been encoded once: element writes through the
+			// exported slice fields (same backing array, same length) and a new SAP value, then Data() again
+			if len(res.Fail) == 0 && out != nil {
+				m.Grouping = append([]byte(nil), m.Grouping...)
+				m.Reserved = append([]byte(nil), m.Reserved...)
+				var grouping, reserved []byte
+				if c.Tag == ref.EBPTagCableLabs {
+					grouping, reserved = cl.Grouping, cl.ReservedBytes
+				} else {
+					grouping, reserved = cc.Grouping, cc.ReservedBytes
+				}
+				if n := len(grouping); n > 0 && len(m.Grouping) == n {
+					grouping[n-1] ^= 0x01
+					m.Grouping[n-1] ^= 0x01
+					judge(fmt.Sprintf("ops %v values #%d (values first: %v), Data(), then Grouping[%d] ^= 1", c.Ops, vi, valuesFirst, n-1))
+				}
+				if n := len(reserved); n > 0 && len(m.Reserved) == n {
+					reserved[0] ^= 0x5A
+					m.Reserved[0] ^= 0x5A
+					reserved[n-1] ^= 0x81
+					m.Reserved[n-1] ^= 0x81
+					judge(fmt.Sprintf("ops %v values #%d (values first: %v), Data(), then ReservedBytes[0], [%d] changed in place", c.Ops, vi, valuesFirst, n-1))
+				}
+				x.SetSap(v.SAP ^ 0x20)
+				m.SAP = v.SAP ^ 0x20
+				judge(fmt.Sprintf("ops %v values #%d (values first: %v), Data(), then SetSap(%#x)", c.Ops, vi, valuesFirst, m.SAP))
+			}
 			for _, b := range out[:c12Head2(len(out))] {
 				h = (h ^ uint64(b)) * 1099511628211
 			}
@@ -974,6 +1052,18 @@ func init() {
 				Rule:  "case = flavour {Comcast 0xA9, CableLabs 0xDF} x all 256 flag bytes x (if present) extension byte {00,80,7F,FF} x SAP byte {00,60,FF} x grouping (Comcast one id of {1C,1D,05,FF}; CableLabs every chain of length 1..3 (thorough 1..4) over {1C,1D,05,7F}); Check loops over (if present) time (seconds,fraction): 18 diagonal pairs of 8 seconds x 9 fraction boundary values (thorough: all 72) x partitions byte {00,03,FF} x trailing reserved bytes {0,1,2}, plus once per case (first time/partitions value) reserved bytes padding the EBP to data_field_length 179 (largest that fits a transport packet), 253, 254 and 255; each input is built by the reference bit-writer, decoded by ReadEncoderBoundaryPoint, every getter / exported field compared with the encoded value, Data() compared with the input; non-trivial = inputs with at least one optional field or reserved byte",
 				Gen:   c12GenDecode,
 				Check: c12CheckDecode, Batch: 8,
+			},
+			&engine.Enum[c12DecCase]{
+				Name: "flavour-lookalikes",
+				Rule: "every CableLabs case of decode-reencode (256 flag bytes x extension x SAP x grouping chains) encoded by the reference writer with one time, partitions 3 and {0,1,2,40} reserved bytes, then relabelled with the Comcast tag 0xA9 (also cut to 'EBP', 'EBP0' and 'EBP0'+1 byte): by the Comcast layout this is flag byte 0x45, extension byte 0x42 and reserved bytes, and must decode as exactly that (flavour, every flag, values, reserved bytes) and re-encode identically; the expected values come from the reference parser",
+				Gen: func(r *engine.Run, emit func(c12DecCase)) {
+					c12GenDecode(r, func(c c12DecCase) {
+						if c.Tag == ref.EBPTagCableLabs {
+							emit(c)
+						}
+					})
+				},
+				Check: c12CheckLookalike, Batch: 32,
 			},
 			&engine.Enum[c12DecTimeCase]{
 				Name:  "decode-time",
